@@ -303,7 +303,17 @@ def compare_results(ref, res, cfg, stats=None):
             return ('resume.measurement_count', f'{len(idx_res)} measurements, uninterrupted run has {len(idx_ref)}',
                     {'kind': kind})
         for k in sorted(rm):
-            a, b = np.asarray(rm[k]), np.asarray(mm[k])
+            try:
+                a, b = np.asarray(rm[k]), np.asarray(mm[k])
+            except ValueError:  # ragged measurement lists: compare entry by entry
+                la, lb = list(rm[k]), list(mm[k])
+                if len(la) != len(lb):
+                    return ('resume.measurement_shape', f'{k}: {len(la)} vs {len(lb)} entries', {'key': k})
+                for j, (x, y) in enumerate(zip(la, lb)):
+                    x, y = np.asarray(x, dtype=float), np.asarray(y, dtype=float)
+                    if x.shape != y.shape or (x.size and float(np.max(np.abs(x - y))) > tol['meas']):
+                        return ('resume.measurement_differs', f'{k}: entry {j} differs', {'key': k})
+                continue
             if a.dtype == object or b.dtype == object:
                 continue
             if a.shape != b.shape:
@@ -511,8 +521,13 @@ def run_config(item, ctx):
     if ctx.get('selftest_every') and idx % ctx['selftest_every'] == 0:
         w2, o2, _ = reference_run(cfg)
         stats['selftest']['twice'] += 1
-        if run_digests(w2)[0] != log_digest:
+        d2 = run_digests(w2)
+        if d2[1] != sem_digest:
             stats['selftest']['mismatch'].append(idx)
+        elif d2[0] != log_digest:
+            # same op sequence and same content of every save, different bytes: pickle output of equal objects is
+            # not canonical (seen with grouped sites: first run in a process vs later runs); informational
+            stats['selftest']['bytes_differ'] = stats['selftest'].get('bytes_differ', 0) + 1
     rng = random.Random(core.sub_seed(seed, 'faults'))
     # ---- sweep
     if not ctx.get('no_sweep'):
@@ -601,7 +616,7 @@ def minimise(found, budget_s=240.0):
     simplifications = [('ext', '.pkl'), ('clock', 'steady'), ('extra_measurements', False), ('L', 4),
                        ('preexisting_output', False), ('conserve', None), ('save_every', 0.0), ('mixer', None),
                        ('measure_at_checkpoints', False), ('max_hours', None), ('N_sweeps_check', 1),
-                       ('chi_list', None), ('max_sweeps', 3), ('n_outer', 3), ('N_steps', 1), ('chi', 8), ('model', 'TFIChain'),
+                       ('chi_list', None), ('group_sites', 1), ('measure_initial', True), ('save_stats', True), ('start_time', 0.0), ('preserve_norm', None), ('combine', False), ('max_sweeps', 3), ('n_outer', 3), ('N_steps', 1), ('chi', 8), ('model', 'TFIChain'),
                        ('order', 2)]
     for key, val in simplifications:
         if key in best['cfg'] and best['cfg'][key] != val and best['cfg'][key] is not None or (
@@ -696,6 +711,7 @@ def main(argv=None):
         for k, v in s['max_dev'].items():
             tot['max_dev'][k] = max(tot['max_dev'].get(k, 0.0), v)
         tot['selftest']['twice'] += s['selftest']['twice']
+        tot['selftest']['bytes_differ'] = tot['selftest'].get('bytes_differ', 0) + s['selftest'].get('bytes_differ', 0)
         tot['selftest']['mismatch'].extend(s['selftest']['mismatch'])
         if len(tot['samples']) < 4:
             tot['samples'].extend(s['samples'])
@@ -730,9 +746,10 @@ def main(argv=None):
                         raise core.HarnessError(f'digest subprocess failed: {se[-1500:]}')
                     for i, d, ds in json.loads(so.strip().splitlines()[-1]):
                         xproc[key] += 1
-                        same = (ref[i][0] == d) if key == 'checked' else (ref[i][1] == ds)
-                        if not same:
+                        if ref[i][1] != ds:
                             xproc['mismatch'].append([i, key])
+                        elif key == 'checked' and ref[i][0] != d:
+                            xproc['bytes_differ'] = xproc.get('bytes_differ', 0) + 1
         except Exception as e:  # noqa: BLE001
             harness_errors.append({'harness_error': f'cross-interpreter determinism test failed to run: {e!r}'})
     if tot['selftest']['mismatch'] or xproc['mismatch']:
@@ -824,6 +841,9 @@ def main(argv=None):
         'determinism_selftest': {'reference_run_twice_in_process': tot['selftest']['twice'],
                                  'fresh_interpreter_same_hashseed': xproc['checked'],
                                  'fresh_interpreter_other_hashseed': xproc['checked_other_hashseed'],
+                                 'criterion': 'sequence of file-system ops + content digest of every save',
+                                 'equal_content_but_different_pickle_bytes': tot['selftest'].get('bytes_differ', 0)
+                                 + xproc.get('bytes_differ', 0),
                                  'mismatches': len(tot['selftest']['mismatch']) + len(xproc['mismatch'])},
         'configurations_skipped_because_the_fault_free_run_raised': tot['ref_failed'][:20],
         'regression_replays_of_fixed_findings': regressions,
